@@ -158,16 +158,18 @@ def check_mapping(mapping, comp_names, agent_descs, must, footprint, method):
     if extra:
         return "unknown computations hosted: %r" % extra, "unknown-computation"
     where = {c: a for a, cs in mapping.items() for c in cs}
-    for a, cs in must.items():
-        for c in cs:
-            if where[c] != a:
-                return "must_host hint %s -> %s ignored: hosted on %s" % (c, a, where[c]), "must-host"
+    # capacity first: a mapping that is both over capacity and ignoring a hint is reported for its capacity
+    # (ignored hints are listed findings for most methods and must not hide anything else)
     if method in CAPACITY_AWARE:
         for a in agent_descs:
             used = sum(footprint[c] for c in mapping.get(a["name"], []))
             if used > a["extra"]["capacity"] + 1e-9:
                 return "agent %s hosts footprint %r with capacity %r (%r)" % (
                     a["name"], used, a["extra"]["capacity"], sorted(mapping.get(a["name"], []))), "capacity"
+    for a, cs in must.items():
+        for c in cs:
+            if where[c] != a:
+                return "must_host hint %s -> %s ignored: hosted on %s" % (c, a, where[c]), "must-host"
     return None, None
 
 
